@@ -4,6 +4,10 @@ import json, os
 ROOT = os.path.dirname(os.path.dirname(os.path.abspath(__file__)))
 
 CHECKS = {
+ 'C06': dict(level='exploration', design='DESIGN.md §5 C06',
+   technique='z3 lemma over the real AST of BareScriptParserError.__init__ (abstract line slices, every line length and column) + CrossHair-chosen faulty statements, end-of-input shapes and token soup parsed by the real parser',
+   text='z3 decides for every line length and every column 1..n+1 that the formatted message displays line[column-1] above the caret in all three elision cases (and puts the caret one past the text for a fault at end of line). CrossHair chooses statement kind, fault, indentation, trailing blanks, prepended comment/blank/statement lines, start line, long-line padding and continuation layout; each path parses a concrete text and checks line number, line text, that the column points at the offending character and that the caret is under it; end-of-input shapes (open blocks, pending continuation) must be rejected and 3-line token soup may only raise BareScriptParserError with a usable position.',
+   note='Partly applicable: symbolic source text cannot reach the regex-driven parser, so arbitrary texts and faults at every column of arbitrary lines are outside the claim. Trusted: z3 LIA, vf.symint, CrossHair.'),
  'C16': dict(level='exploration', design='DESIGN.md §5 C16',
    technique='symbolic execution of the real AST of datetimeNew into z3 integer arithmetic (vf.symint): carry chain for all integers, one inductive step per day-adjust loop from an arbitrary state, uniqueness of the civil representation; CrossHair differential against ordinal arithmetic',
    text='z3 decides on the current source of datetimeNew that the ms/s/min/h/month carry chain equals floor-division normal form for ALL integers, that each day-adjust loop preserves the proleptic-Gregorian day number, keeps 1<=month<=12, makes progress and exits with 1<=day<=month length from ANY state (so roll-over is right for every iteration count), and that the day number determines the date. CrossHair compares datetimeNew and the seven getters with ordinal arithmetic over one symbolic component at a time and checks (d + n ms) - d == n over a solver-indexed pool. The any-time-zone clause is not applicable to a solver (C library tz state); 8 zones are replayed concretely as a by-product.',
